@@ -14,6 +14,7 @@ import (
 	"fmt"
 	"os"
 	"os/exec"
+	"regexp"
 	"strconv"
 	"strings"
 	"sync"
@@ -33,6 +34,11 @@ type c15Case struct {
 	Multi   int      `json:"multi"` // 0 off, -1 unlimited, k limit
 	HScroll bool     `json:"hscroll"`
 	Unicode bool     `json:"unicode"` // arbitrary Unicode list: width bound only
+	Tabstop  int    `json:"tabstop,omitempty"`  // --tabstop (0 = default 8); items may contain TABs
+	Ansi     bool   `json:"ansi,omitempty"`     // --ansi: items carry SGR sequences (colour offsets without a query)
+	Wrap     bool   `json:"wrap,omitempty"`     // --wrap: long items take several rows
+	WrapSign string `json:"wrap_sign,omitempty"`
+	Read0    bool   `json:"read0,omitempty"`    // --read0: items may contain newlines (multi-line items)
 	Lines   []string `json:"lines"`
 	Actions []string `json:"actions"`
 }
@@ -48,6 +54,18 @@ func (cs *c15Case) args() []string {
 	}
 	if cs.Prompt != "" {
 		a = append(a, "--prompt="+cs.Prompt)
+	}
+	if cs.Tabstop > 0 {
+		a = append(a, "--tabstop="+strconv.Itoa(cs.Tabstop))
+	}
+	if cs.Ansi {
+		a = append(a, "--ansi")
+	}
+	if cs.Wrap {
+		a = append(a, "--wrap", "--wrap-sign="+cs.WrapSign)
+	}
+	if cs.Read0 {
+		a = append(a, "--read0")
 	}
 	if !cs.Sep {
 		a = append(a, "--no-separator")
@@ -73,14 +91,56 @@ func (cs *c15Case) cfgVal() Val {
 		hdr = append(hdr, runesVal(h))
 	}
 	hl := []Val{}
-	for i := 0; i < cs.HLines && i < len(cs.Lines); i++ {
-		hl = append(hl, runesVal(cs.Lines[i]))
+	texts := cs.texts()
+	for i := 0; i < cs.HLines && i < len(texts); i++ {
+		hl = append(hl, runesVal(texts[i]))
 	}
 	multi := cs.Multi
 	if multi < 0 {
 		multi = 2147483647
 	}
-	return L(I(cs.W), I(cs.H), I(cs.Layout), I(cs.Info), B(cs.Sep), L(hdr...), L(hl...), I(multi))
+	ts := cs.Tabstop
+	if ts <= 0 {
+		ts = 8
+	}
+	return L(I(cs.W), I(cs.H), I(cs.Layout), I(cs.Info), B(cs.Sep), L(hdr...), L(hl...), I(multi), I(ts))
+}
+
+var c15SGR = regexp.MustCompile("\x1b\\[[0-9;]*m")
+
+// texts: the items as fzf shows them (SGR sequences removed under --ansi)
+func (cs *c15Case) texts() []string {
+	if !cs.Ansi {
+		return cs.Lines
+	}
+	out := make([]string, len(cs.Lines))
+	for i, l := range cs.Lines {
+		out[i] = c15SGR.ReplaceAllString(l, "")
+	}
+	return out
+}
+
+// mrows: items may take several rows (outside RenderModel: judged by RenderSpec.check_mrows, op 1506)
+func (cs *c15Case) mrows() bool { return cs.Wrap || cs.Read0 }
+
+// exact: the whole screen is compared with the extracted render
+func (cs *c15Case) exact() bool { return !cs.Unicode && !cs.mrows() }
+
+func (cs *c15Case) modeVal() Val {
+	return L(B(cs.Wrap), B(cs.Read0), runesVal(cs.WrapSign), L(I('.'), I('|'), I('\'')))
+}
+
+func (cs *c15Case) stdin() []byte {
+	sep := "\n"
+	if cs.Read0 {
+		sep = "\x00"
+	}
+	var b strings.Builder
+	for _, l := range cs.Lines {
+		b.WriteString(l)
+		b.WriteString(sep)
+	}
+	return []byte(b.String())
 }
 
 func (cs *c15Case) promptLines() int {
@@ -129,6 +189,8 @@ func c15Clause(code int) string {
 		return "faithful.prompt_row"
 	case code == 3:
 		return "faithful.info_row"
+	case code == 6:
+		return "multi_row_items(every row of a wrapped / multi-line item shows its item's text and nothing else)"
 	case code == 4:
 		return "info_visible(the matched/total counter is on the row the info style dictates)"
 	case code >= 100 && code < 1000:
@@ -172,8 +234,9 @@ func c15Subseq(q, line string) bool {
 
 func (cs *c15Case) expectCount(q string) int {
 	n := 0
-	for i := cs.HLines; i < len(cs.Lines); i++ {
-		if c15Subseq(q, cs.Lines[i]) {
+	texts := cs.texts()
+	for i := cs.HLines; i < len(texts); i++ {
+		if c15Subseq(q, texts[i]) {
 			n++
 		}
 	}
@@ -223,13 +286,14 @@ var c15Timeout = 10 * time.Second
 // c15RunOnce runs one session; returns the first failure (nil if none), the number of steps compared and an
 // infrastructure error (session could not be started / died), which is not a verdict about the property.
 func c15RunOnce(c *Ctx, cs *c15Case, count bool, timeout time.Duration) (*c15Failure, int, error) {
-	s, err := StartSession(c, SessionOpts{Args: cs.args(), Lines: cs.Lines, Cols: cs.W, Rows: cs.H})
+	s, err := StartSession(c, SessionOpts{Args: cs.args(), Stdin: cs.stdin(), Cols: cs.W, Rows: cs.H})
 	if err != nil {
 		return nil, 0, err
 	}
 	defer s.Close()
 	vt := newVT(cs.W, cs.H)
 	cfg := cs.cfgVal()
+	mode := cs.modeVal()
 	maxl := cs.maxItems()
 	total := len(cs.Lines) - cs.HLines
 	off := 0
@@ -260,6 +324,7 @@ func c15RunOnce(c *Ctx, cs *c15Case, count bool, timeout time.Duration) (*c15Fai
 		if !cs.Unicode {
 			want = cs.expectCount(query)
 		}
+		_ = mode
 		st, ok := s.WaitFor(func(st *FzfState) bool {
 			return !st.Reading && st.TotalCount == total && st.Query == query && (want < 0 || st.MatchCount == want) &&
 				len(st.Matches) == st.MatchCount
@@ -281,6 +346,11 @@ func c15RunOnce(c *Ctx, cs *c15Case, count bool, timeout time.Duration) (*c15Fai
 		var modelErr error
 		expect := func() {
 			pos = max(st.Position, 0)
+			if cs.mrows() { // the scroll offset of multi-row lists is not tracked: the spec asks for SOME offset
+				cy, noff = min(pos, max(st.MatchCount-1, 0)), 0
+				view = c15View(st, cy, 0, prompt)
+				return
+			}
 			co := c.Model.Call(1501, L(I(st.MatchCount), I(maxl), I(3), I(pos), I(off)))
 			if len(co.L) != 2 {
 				modelErr = fmt.Errorf("model constrain: %s", co.String())
@@ -288,7 +358,7 @@ func c15RunOnce(c *Ctx, cs *c15Case, count bool, timeout time.Duration) (*c15Fai
 			}
 			cy, noff = int(co.L[0].I), int(co.L[1].I)
 			view = c15View(st, cy, noff, prompt)
-			if !cs.Unicode {
+			if cs.exact() {
 				wantRows = valRows(c.Model.Call(1502, L(cfg, view)))
 			}
 		}
@@ -301,11 +371,27 @@ func c15RunOnce(c *Ctx, cs *c15Case, count bool, timeout time.Duration) (*c15Fai
 		var rows []string
 		var widths []int
 		var bad []int
+		var judgeNow func() bool
+		var mrowsInfo []int
+		judged, judgedOK := -1, false
 		judge := func() bool {
 			vt.Sync(s)
+			if !cs.exact() && judged == vt.consumed { // nothing new on the terminal since the last look
+				return judgedOK
+			}
+			ok := judgeNow()
+			judged, judgedOK = vt.consumed, ok
+			return ok
+		}
+		judgeNow = func() bool {
 			rows, widths = vt.Rows()
+			if cs.Read0 {
+				for r := range rows { // a cut multi-line item ends with the line-feed glyph: not part of the text
+					rows[r] = strings.TrimSuffix(rows[r], "\u240a")
+				}
+			}
 			bad = nil
-			if !cs.Unicode {
+			if cs.exact() {
 				for r := range rows {
 					if r >= len(wantRows) || rows[r] != wantRows[r] {
 						return false
@@ -321,6 +407,13 @@ func c15RunOnce(c *Ctx, cs *c15Case, count bool, timeout time.Duration) (*c15Fai
 				}
 				bad = append(bad, code)
 			}
+			if cs.mrows() {
+				mv := c.Model.Call(1506, L(cfg, mode, view, rowsVal(rows)))
+				if len(mv.L) > 0 {
+					bad = append(bad, 6)
+					mrowsInfo = mv.IntList()
+				}
+			}
 			for r, w := range widths {
 				if w > cs.W {
 					bad = append(bad, 5000+r)
@@ -332,8 +425,11 @@ func c15RunOnce(c *Ctx, cs *c15Case, count bool, timeout time.Duration) (*c15Fai
 		// new query may arrive after GET answered with the old one (same counts): look again at both
 		deadline := time.Now().Add(timeout)
 		for i := 0; ; i++ {
-			if judge() || vt.Overflow > 0 || time.Now().After(deadline) || s.Exited() {
+			if judge() || time.Now().After(deadline) || s.Exited() {
 				break
+			}
+			if vt.Overflow > 0 && time.Now().Add(timeout).After(deadline.Add(500*time.Millisecond)) {
+				break // printed past the last column: reported at once (half a second to let the frame finish, for the report)
 			}
 			if i < 20 {
 				time.Sleep(time.Millisecond)
@@ -344,6 +440,7 @@ func c15RunOnce(c *Ctx, cs *c15Case, count bool, timeout time.Duration) (*c15Fai
 				if st2, err := s.Get(); err == nil && !st2.Reading && st2.TotalCount == total && st2.Query == query &&
 					(want < 0 || st2.MatchCount == want) && len(st2.Matches) == st2.MatchCount {
 					st = st2
+					judged = -1
 					expect()
 					if modelErr != nil {
 						return nil, steps, modelErr
@@ -375,11 +472,14 @@ func c15RunOnce(c *Ctx, cs *c15Case, count bool, timeout time.Duration) (*c15Fai
 		}
 		// width bound, straight from the terminal: nothing was printed past the last column, and the last
 		// column of every row stays blank except on the info/separator rows (they may fill the row)
-		if vt.Overflow > 0 {
+		overflowFailure := func() *c15Failure {
 			return &c15Failure{Step: step, Kind: "spec", Name: "width_bound(printed past the last column)",
-				Impl: map[string]interface{}{"overflow_events": vt.Overflow, "rows": rows}, Expect: "0"}, steps, nil
+				Impl: map[string]interface{}{"overflow_events": vt.Overflow, "rows": rows}, Expect: "0"}
 		}
-		if !cs.Unicode {
+		if vt.Overflow > 0 && !cs.exact() {
+			return overflowFailure(), steps, nil
+		}
+		if cs.exact() {
 			fv := c.Model.Call(1504, L(cfg, view, rowsVal(rows)))
 			bad = nil
 			for _, x := range fv.L {
@@ -391,11 +491,25 @@ func c15RunOnce(c *Ctx, cs *c15Case, count bool, timeout time.Duration) (*c15Fai
 				}
 			}
 		}
+		if len(bad) == 0 && vt.Overflow > 0 {
+			return overflowFailure(), steps, nil
+		}
 		if len(bad) > 0 {
 			f := &c15Failure{Step: step, Kind: "spec", Name: c15Clause(bad[0]),
-				Impl: map[string]interface{}{"screen": rows, "failing_clauses": bad, "state": c15StateBrief(st, cy, noff)}}
-			if !cs.Unicode {
+				Impl: map[string]interface{}{"screen": rows, "failing_clauses": bad, "state": c15StateBrief(st, cy, noff),
+					"printed_past_last_column": vt.Overflow}}
+			if cs.exact() {
 				f.Expect = wantRows
+			} else if bad[0] == 6 && len(mrowsInfo) == 3 {
+				// what the list rows should show for the scroll offset that explains most of the screen
+				v2 := c15View(st, cy, mrowsInfo[1], prompt)
+				exp := map[string]string{}
+				for _, e := range c.Model.Call(1507, L(cfg, mode, v2)).L {
+					if len(e.L) == 2 {
+						exp[fmt.Sprintf("row %02d", e.L[0].I)] = strings.TrimRight(e.L[1].RuneStr(), " ")
+					}
+				}
+				f.Expect = map[string]interface{}{"best_offset": mrowsInfo[1], "rows_that_differ": mrowsInfo[2], "list_rows": exp}
 			} else if len(bad) == 1 && (bad[0] == 2 || bad[0] == 3) {
 				// prompt and info rows do not depend on the width of the list texts: the model's rows classify
 				wantRows = valRows(c.Model.Call(1502, L(cfg, view)))
@@ -407,7 +521,7 @@ func c15RunOnce(c *Ctx, cs *c15Case, count bool, timeout time.Duration) (*c15Fai
 			return f, steps, nil
 		}
 		// ---- (5b) model vs implementation ----
-		if !cs.Unicode {
+		if cs.exact() {
 			for r := range rows {
 				if rows[r] != wantRows[r] {
 					return &c15Failure{Step: step, Kind: "corr", Name: "corr:C15.render",
@@ -424,7 +538,7 @@ func c15RunOnce(c *Ctx, cs *c15Case, count bool, timeout time.Duration) (*c15Fai
 		}
 	}
 	// the incremental-redraw machine on the whole history
-	if !cs.Unicode && len(history) > 0 {
+	if cs.exact() && len(history) > 0 {
 		h0 := history[0].view
 		v0 := L(h0.L[0], h0.L[1], h0.L[2], h0.L[3], I(0), h0.L[4], h0.L[6])
 		us := []Val{}
@@ -483,7 +597,7 @@ func c15KnownInfoStale(cs *c15Case, bad []int, rows, want []string, st *FzfState
 	if idx < 0 || idx >= len(rows) || idx >= len(want) {
 		return ""
 	}
-	if !cs.Unicode { // exact stream: nothing else may differ
+	if cs.exact() { // exact stream: nothing else may differ
 		for r := range rows {
 			if r != idx && rows[r] != want[r] {
 				return ""
@@ -672,6 +786,105 @@ func c15Gen(c *Ctx, r *RNG, uni bool) *c15Case {
 	return cs
 }
 
+// c15Kind turns a plain exact case into one of the special regions:
+//   tabs   items (and header lines) with TABs, --tabstop, and a non-empty query so that highlight offsets precede tabs
+//   ansi   --ansi items with SGR-coloured segments (colour offsets without any query), tabs after them
+//   wrap   --wrap with lines longer than the window (items take several rows)
+//   read0  --read0 multi-line items (sometimes with --wrap)
+func c15Kind(cs *c15Case, r *RNG, kind string) {
+	if cs.W < 12 || cs.Unicode {
+		return
+	}
+	hasTyping := func() bool {
+		for _, a := range cs.Actions {
+			if c15Query("", a) != "" {
+				return true
+			}
+		}
+		return false
+	}
+	letters := []rune("abe1abe1kdfgh0._")
+	word := func(n int) string {
+		var sb strings.Builder
+		for i := 0; i < n; i++ {
+			sb.WriteRune(letters[r.Intn(len(letters))])
+		}
+		return sb.String()
+	}
+	switch kind {
+	case "tabs", "ansi":
+		cs.HScroll = false
+		cs.Tabstop = Pick(r, []int{0, 0, 1, 2, 3, 4, 5, 8, 8, 13})
+		for i := range cs.Lines {
+			nseg := r.Range(1, 5)
+			var sb strings.Builder
+			for k := 0; k < nseg; k++ {
+				w := word(r.Range(0, 7))
+				if kind == "ansi" && r.Chance(1, 2) && w != "" {
+					w = "\x1b[" + Pick(r, []string{"31", "1;32", "4", "38;5;200", "7"}) + "m" + w + "\x1b[m"
+				}
+				sb.WriteString(w)
+				if k < nseg-1 {
+					if r.Chance(3, 4) {
+						sb.WriteByte('\t')
+					} else {
+						sb.WriteByte(' ')
+					}
+				}
+			}
+			if r.Chance(1, 4) { // long: truncation with tabs straddling the cut
+				sb.WriteString("\t" + word(cs.W))
+			}
+			cs.Lines[i] = sb.String()
+		}
+		if kind == "ansi" {
+			cs.Ansi = true
+		}
+		for i := range cs.Header {
+			if r.Chance(1, 2) {
+				cs.Header[i] = word(r.Range(1, 4)) + "\t" + cs.Header[i]
+			}
+		}
+		if !hasTyping() && len(cs.Actions) > 0 && cs.W >= 30 {
+			cs.Actions[r.Intn(min(3, len(cs.Actions)))] = "change-query(" + Pick(r, []string{"a", "b", "e", "ab", "1"}) + ")"
+		}
+	case "wrap", "read0":
+		cs.HScroll = false
+		cs.HLines = 0
+		if kind == "wrap" || r.Chance(1, 4) {
+			cs.Wrap = true
+			cs.WrapSign = Pick(r, []string{"> ", "+ ", "~", ">> ", "| "})
+		}
+		for i := range cs.Lines {
+			if kind == "wrap" {
+				switch r.Intn(4) {
+				case 0:
+					cs.Lines[i] = word(r.Range(0, cs.W-4))
+				case 1:
+					cs.Lines[i] = word(r.Range(cs.W-5, cs.W-1)) // around one row
+				default:
+					cs.Lines[i] = word(r.Range(cs.W, 3*cs.W))
+				}
+			} else {
+				nl := r.Range(1, 4)
+				parts := []string{}
+				for k := 0; k < nl; k++ {
+					if r.Chance(1, 5) {
+						parts = append(parts, word(r.Range(cs.W, cs.W+20))) // cut with the ellipsis (or wrapped)
+					} else {
+						parts = append(parts, word(r.Range(0, max(cs.W-8, 1))))
+					}
+				}
+				cs.Lines[i] = strings.Join(parts, "\n")
+				cs.Read0 = true
+			}
+		}
+		if kind == "read0" {
+			cs.Read0 = true
+		}
+	}
+}
+
 // ---- driver ----
 
 var c15Stop atomic.Bool
@@ -715,6 +928,18 @@ func c15Check(c *Ctx, cs *c15Case) {
 	c.Rep.Count("layout=" + c15Layouts[cs.Layout])
 	c.Rep.Count("info=" + c15Infos[cs.Info])
 	c.Rep.Count(fmt.Sprintf("unicode=%v", cs.Unicode))
+	if cs.Tabstop > 0 || strings.Contains(strings.Join(cs.Lines, ""), "\t") {
+		c.Rep.Count("tabs")
+	}
+	if cs.Ansi {
+		c.Rep.Count("ansi")
+	}
+	if cs.Wrap {
+		c.Rep.Count("wrap")
+	}
+	if cs.Read0 {
+		c.Rep.Count("read0")
+	}
 	c.Rep.Count(fmt.Sprintf("header=%d", len(cs.Header)))
 	c.Rep.Count(fmt.Sprintf("hlines=%d", cs.HLines))
 	if cs.Multi != 0 {
@@ -781,7 +1006,7 @@ func c15TmuxCross(c *Ctx, cs *c15Case, id int) {
 		return
 	}
 	// our interpreter's final screen
-	s, err := StartSession(c, SessionOpts{Args: cs.args(), Lines: cs.Lines, Cols: cs.W, Rows: cs.H})
+	s, err := StartSession(c, SessionOpts{Args: cs.args(), Stdin: cs.stdin(), Cols: cs.W, Rows: cs.H})
 	if err != nil {
 		return
 	}
@@ -811,11 +1036,7 @@ func c15TmuxCross(c *Ctx, cs *c15Case, id int) {
 	port := freePort()
 	dir, _ := os.MkdirTemp(c.Work, "tmux")
 	defer os.RemoveAll(dir)
-	var in strings.Builder
-	for _, l := range cs.Lines {
-		in.WriteString(l + "\n")
-	}
-	os.WriteFile(dir+"/in", []byte(in.String()), 0600)
+	os.WriteFile(dir+"/in", cs.stdin(), 0600)
 	var sh strings.Builder
 	sh.WriteString("#!/bin/sh\nexport FZF_DEFAULT_OPTS= FZF_DEFAULT_COMMAND= TERM=xterm-256color LC_ALL=C.UTF-8\ncd " + shQuote(dir) + "\nexec ")
 	sh.WriteString(shQuote(c.Fzf))
@@ -912,10 +1133,23 @@ func runC15(c *Ctx) {
 	nu := c.N(30, 400)
 	cases := make([]*c15Case, 0, n+nu)
 	for i := 0; i < n; i++ {
-		cases = append(cases, c15Gen(c, c.Rng.Fork(), false))
+		cs := c15Gen(c, c.Rng.Fork(), false)
+		switch i % 8 { // a quarter of the exact sessions exercise tab expansion and colour offsets
+		case 3:
+			c15Kind(cs, c.Rng.Fork(), "tabs")
+		case 7:
+			c15Kind(cs, c.Rng.Fork(), Pick(c.Rng, []string{"tabs", "ansi"}))
+		}
+		cases = append(cases, cs)
 	}
 	for i := 0; i < nu; i++ {
 		cases = append(cases, c15Gen(c, c.Rng.Fork(), true))
+	}
+	nm := c.N(30, 300) // items that take several rows
+	for i := 0; i < nm; i++ {
+		cs := c15Gen(c, c.Rng.Fork(), false)
+		c15Kind(cs, c.Rng.Fork(), []string{"wrap", "wrap", "read0"}[i%3])
+		cases = append(cases, cs)
 	}
 	var wg sync.WaitGroup
 	ch := make(chan *c15Case)
